@@ -7,6 +7,7 @@ import (
 	"go/token"
 	"go/types"
 	"io"
+	"path/filepath"
 	"reflect"
 	"slices"
 	"strings"
@@ -597,7 +598,13 @@ func (g *graph) entry() {
 		if len(dir.Arguments) == 0 {
 			continue
 		}
-		if slices.Contains(strings.Split(dir.Arguments[0], ","), "U1000") {
+		// Match check names the same way the linter matches them for all
+		// other checks: as case-insensitive globs.
+		matchesU1000 := slices.ContainsFunc(strings.Split(dir.Arguments[0], ","), func(check string) bool {
+			m, _ := filepath.Match(strings.ToLower(check), "u1000")
+			return m
+		})
+		if matchesU1000 {
 			pos := g.fset.PositionFor(dir.Node.Pos(), false)
 			var key ignoredKey
 			switch dir.Command {
